@@ -101,7 +101,7 @@ def competing_specs(tier):
 
 def items(tier):
     out = []
-    for sp in list(F.fac_specs(tier)) + competing_specs(tier) + F.same_name_workplace_specs() + F.waiting_assembly_specs():
+    for sp in list(F.fac_specs(tier)) + competing_specs(tier) + F.same_name_workplace_specs() + F.waiting_assembly_specs() + F.ff_held_component_specs() + F.late_placement_specs() + F.sequential_facility_specs():
         out.append((sp, {"rule": "TSLACK", "max_time": F.seq_bound(sp) + 8}))
     return out
 
